@@ -27,7 +27,10 @@ LinRel(h) == op[h].st = "called" /\ op[h].name = "rel" /\ SRelease(h) /\ op' = [
 LinOwn(h) == op[h].st = "called" /\ op[h].name = "own" /\ SOwn(h) /\ op' = [op EXCEPT ![h].st = "done"]
 LinFree(h) == op[h].st = "called" /\ op[h].name = "free" /\ SFree(h) /\ op' = [op EXCEPT ![h].st = "done"]
 LinVal(h) == op[h].st = "called" /\ op[h].name = "val" /\ op' = [op EXCEPT ![h].st = "done"] /\ UNCHANGED svars
-DoLin == /\ \E h \in Hids : LinNewOpen(h) \/ LinNewOpenFail(h) \/ LinCreateReset(h) \/ LinCreate(h) \/ LinAcq(h)
+(* a call through a handle that does not exist (its open failed, or its process was killed) fails and changes nothing *)
+LinNoHandle(h) == /\ op[h].st = "called" /\ op[h].name \in {"rel", "own", "free", "val"} /\ hd[h].g = 0
+                  /\ op' = [op EXCEPT ![h].st = "failed"] /\ UNCHANGED svars
+DoLin == /\ \E h \in Hids : LinNoHandle(h) \/ LinNewOpen(h) \/ LinNewOpenFail(h) \/ LinCreateReset(h) \/ LinCreate(h) \/ LinAcq(h)
                             \/ LinRel(h) \/ LinOwn(h) \/ LinFree(h) \/ LinVal(h)
          /\ UNCHANGED l
 TrRet == /\ IsEvent("ret") /\ Consume
